@@ -1,6 +1,22 @@
-import CentrifugeVerif.Model.MapHub
+import CentrifugeVerif.Proofs.MapHub
 /-!
 # C20 — the memory map broker implements the map-state specification
+
+Theorems about the executable model `Model/MapHub.lean` of `MemoryMapBroker` (`/repo/map_broker_memory.go`):
+
+* T1 the suppress reason of `mapHub.add` is the specification's decision `decideSup`
+  (version, then key mode, then compare-and-swap);
+* T2/T3 a suppressed operation (and an error) changes nothing observable, appends nothing and
+  broadcasts nothing — with the one documented exception (`RefreshTTLOnSuppress`), which only moves
+  the deadline of the existing entry;
+* T4 an unsuppressed operation on a stream-backed channel appends exactly one stream entry with
+  offset `top + 1` and is broadcast exactly once with that offset; other channels and other keys are
+  untouched;
+* T5 compare-and-swap compares the stored publication's offset and the channel epoch;
+* T6 structural invariants (`HubInv`) hold after every op sequence.
+
+Helper definitions (`chanFor`, `decideSup`, `chanView`, `ChanInv`, `HubInv`) and lemmas are in
+`Proofs/MapHub.lean`.
 -/
 namespace CentrifugeVerif.MapHub
 
@@ -14,5 +30,296 @@ theorem resolve_stream_size_pos (r : RawCfg) (c : Cfg) (h : resolve r = some c) 
     simp [Cfg.hasStream] at hs ⊢
     repeat' split
     all_goals omega
+
+/-! ### fixtures for the examples -/
+
+/-- stream-backed channel options with a key TTL (mode 2) -/
+private def exRc : RawCfg := ⟨2, 1000, 10, false⟩
+private def exCfg : Cfg := ⟨2, 1000, 10, false⟩
+/-- ephemeral (streamless) options (mode 1) -/
+private def exRcE : RawCfg := ⟨1, 1000, 0, false⟩
+private def exCfgE : Cfg := ⟨1, 1000, 0, false⟩
+private def exPub : Pub := ⟨[7], 5, 0, 0, 1, false, 0⟩
+/-- channel 1 after `Publish(key [7], data 5, version 3)` at time 0 -/
+private def exChan : Chan :=
+  { stream := ⟨1, [exPub], 1⟩, state := [([7], ⟨exPub, 0, 1000, 3, 0⟩)], ordered := false, scores := [] }
+private def exHub : Hub := (publish exRc Hub.init 0 1 [7] { data := 5, version := 3 }).1
+
+example : resolve exRc = some exCfg := by decide
+example : resolve exRcE = some exCfgE := by decide
+example : aget exHub.chans 1 = some exChan := by decide
+example : chanFor exCfg exHub 1 = exChan := by decide
+
+/-! ### T1: order of the checks -/
+
+/-- **T1** the suppress reason returned by `mapHub.add` is the specification's decision on the channel
+the call works on: version first, then key mode, then compare-and-swap. -/
+theorem add_check_order (cfg : Cfg) (h : Hub) (now ch : Nat) (key : Key) (o : PubOpts) :
+    (add cfg h now ch key o).2.2.2.1 = decideSup cfg (chanFor cfg h ch) key o :=
+  add_sup cfg h now ch key o
+
+/-- a failing version check wins over everything else. -/
+theorem version_checked_first (cfg : Cfg) (c : Chan) (key : Key) (o : PubOpts)
+    (hv : versionBlocked cfg c key o = true) : decideSup cfg c key o = .version := by
+  simp [decideSup, hv]
+
+/-- when the version check passes, a failing key-mode check wins over compare-and-swap. -/
+theorem keymode_checked_before_cas (cfg : Cfg) (c : Chan) (key : Key) (o : PubOpts) (r : Suppress)
+    (hv : versionBlocked cfg c key o = false) (hk : keyModeBlocked c key o = some r) :
+    decideSup cfg c key o = r := by
+  simp [decideSup, hv, hk]
+
+/-- compare-and-swap is looked at only when version and key mode pass. -/
+theorem cas_checked_last (cfg : Cfg) (c : Chan) (key : Key) (o : PubOpts)
+    (hv : versionBlocked cfg c key o = false) (hk : keyModeBlocked c key o = none) (hne : key ≠ [])
+    (hc : (casBlocked c key o.cas).isSome = true) : decideSup cfg c key o = .positionMismatch := by
+  simp [decideSup, hv, hk, hne, hc]
+
+/-- all three checks would fail: the reason is `version`. -/
+example :
+    let o : PubOpts := { version := 2, mode := .ifNew, cas := some ⟨9, 9⟩ }
+    versionBlocked exCfg exChan [7] o = true ∧ keyModeBlocked exChan [7] o = some .keyExists ∧
+    (casBlocked exChan [7] o.cas).isSome = true ∧ decideSup exCfg exChan [7] o = .version ∧
+    (add exCfg exHub 5 1 [7] o).2.2.2.1 = .version := by decide
+
+/-- key mode and compare-and-swap would fail: the reason is `keyExists`. -/
+example :
+    let o : PubOpts := { mode := .ifNew, cas := some ⟨9, 9⟩ }
+    versionBlocked exCfg exChan [7] o = false ∧ keyModeBlocked exChan [7] o = some .keyExists ∧
+    (casBlocked exChan [7] o.cas).isSome = true ∧ decideSup exCfg exChan [7] o = .keyExists ∧
+    (add exCfg exHub 5 1 [7] o).2.2.2.1 = .keyExists := by decide
+
+/-- only compare-and-swap fails (hypotheses of `cas_checked_last`). -/
+example :
+    let o : PubOpts := { cas := some ⟨9, 9⟩ }
+    versionBlocked exCfg exChan [7] o = false ∧ keyModeBlocked exChan [7] o = none ∧
+    (casBlocked exChan [7] o.cas).isSome = true ∧ decideSup exCfg exChan [7] o = .positionMismatch := by
+  decide
+
+/-! ### T5: what compare-and-swap compares -/
+
+/-- **T5** compare-and-swap passes iff the key exists, the *stored publication's offset* equals the
+expected offset and the *channel epoch* equals the expected epoch. -/
+theorem cas_compares_offset_and_epoch (c : Chan) (key : Key) (exp : Pos) :
+    casBlocked c key (some exp) = none ↔
+      ∃ e, aget c.state key = some e ∧ e.pub.offset = exp.offset ∧ c.stream.epoch = exp.epoch :=
+  casBlocked_none_iff c key exp
+
+/-- without an expected position there is no compare-and-swap. -/
+theorem cas_absent (c : Chan) (key : Key) : casBlocked c key none = none := rfl
+
+example : casBlocked exChan [7] (some ⟨1, 1⟩) = none ∧ casBlocked exChan [7] (some ⟨1, 2⟩) ≠ none ∧
+    casBlocked exChan [7] (some ⟨2, 1⟩) ≠ none ∧ casBlocked exChan [8] (some ⟨1, 1⟩) ≠ none := by decide
+
+/-! ### T2: a suppressed `add` -/
+
+/-- **T2** a suppressed `mapHub.add` — other than the documented TTL refresh — leaves key deadlines,
+the expiry queue, the result cache and the observable content of *every* channel unchanged.
+(The Go code, and the model, may have created the empty channel or set its `ordered` flag.) -/
+theorem add_suppressed_frame (cfg : Cfg) (h : Hub) (now ch : Nat) (key : Key) (o : PubOpts)
+    (hs : (add cfg h now ch key o).2.2.2.1 ≠ .none)
+    (hx : ¬ ((add cfg h now ch key o).2.2.2.1 = .keyExists ∧ o.refresh = true ∧ cfg.keyTTL > 0)) :
+    (add cfg h now ch key o).1.keyExpires = h.keyExpires ∧ (add cfg h now ch key o).1.queue = h.queue ∧
+    (add cfg h now ch key o).1.nextKeyCheck = h.nextKeyCheck ∧ (add cfg h now ch key o).1.cache = h.cache ∧
+    ∀ ch', chanView (add cfg h now ch key o).1 ch' = chanView h ch' :=
+  add_suppressed_frame' cfg h now ch key o hs hx
+
+example : (add exCfg exHub 5 1 [7] { mode := .ifNew }).2.2.2.1 = .keyExists ∧
+    (add exCfg Hub.init 5 1 [7] { mode := .ifExists }).2.2.2.1 = .keyNotFound := by decide
+
+/-- **T2b** the documented exception: a suppressed `KeyModeIfNew` publish with `RefreshTTLOnSuppress`
+only moves the deadline of the existing entry (to `now + KeyTTL`); stream, other entries, other
+channels are unchanged. -/
+theorem add_refresh_frame (cfg : Cfg) (h : Hub) (now ch : Nat) (key : Key) (o : PubOpts)
+    (hs : (add cfg h now ch key o).2.2.2.1 = .keyExists) (hr : o.refresh = true) (ht : cfg.keyTTL > 0) :
+    (∀ ch', ch' ≠ ch → chanView (add cfg h now ch key o).1 ch' = chanView h ch') ∧
+    (chanView (add cfg h now ch key o).1 ch).1 = (chanView h ch).1 ∧
+    (chanView (add cfg h now ch key o).1 ch).2.1 = (chanView h ch).2.1 ∧
+    (∀ k, (aget (chanView (add cfg h now ch key o).1 ch).2.2 k).map (fun e => (e.pub, e.score, e.version, e.vepoch))
+        = (aget (chanView h ch).2.2 k).map (fun e => (e.pub, e.score, e.version, e.vepoch))) ∧
+    ∃ e, aget (chanView (add cfg h now ch key o).1 ch).2.2 key = some e ∧ e.expireAt = now + cfg.keyTTL :=
+  add_refresh_frame' cfg h now ch key o hs hr ht
+
+example : (add exCfg exHub 5 1 [7] { mode := .ifNew, refresh := true }).2.2.2.1 = .keyExists ∧
+    (aget (chanView (add exCfg exHub 5 1 [7] { mode := .ifNew, refresh := true }).1 1).2.2 [7]).map (·.expireAt)
+      = some 1005 := by decide
+
+/-! ### T3: suppressed operations and errors at the broker level -/
+
+/-- **T3** a suppressed `Publish` broadcasts nothing and saves nothing in the result cache; unless it
+is the documented TTL refresh it leaves every channel's stream and state and the deadlines unchanged;
+an idempotency hit leaves the whole hub unchanged. -/
+theorem publish_suppressed_changes_nothing (rc : RawCfg) (h : Hub) (now ch : Nat) (key : Key) (o : PubOpts)
+    (pos : Pos) (sup : Suppress) (cur : Option (Nat × Nat))
+    (hres : (publish rc h now ch key o).2.res = .update pos sup cur) (hs : sup ≠ .none) :
+    (publish rc h now ch key o).2.bcs = [] ∧ (publish rc h now ch key o).1.cache = h.cache ∧
+    (sup = .idempotency → (publish rc h now ch key o).1 = h) ∧
+    (¬ (sup = .keyExists ∧ o.refresh = true) →
+      (∀ ch', chanView (publish rc h now ch key o).1 ch' = chanView h ch') ∧
+      (publish rc h now ch key o).1.keyExpires = h.keyExpires ∧
+      (publish rc h now ch key o).1.queue = h.queue ∧
+      (publish rc h now ch key o).1.nextKeyCheck = h.nextKeyCheck) :=
+  publish_suppressed_aux rc h now ch key o pos sup cur hres hs
+
+example : (publish exRc exHub 5 1 [7] { version := 2 }).2.res = .update ⟨1, 1⟩ .version none := by decide
+example : (publish exRc exHub 5 1 [7] { cas := some ⟨4, 1⟩ }).2.res
+    = .update ⟨1, 1⟩ .positionMismatch (some (1, 5)) := by decide
+/-- an idempotency hit returns the cached position -/
+example :
+    let h1 := (publish exRc exHub 5 1 [8] { idem := 4 }).1
+    (publish exRc h1 6 1 [9] { idem := 4 }).2.res = .update ⟨2, 1⟩ .idempotency none := by decide
+
+/-- **T3** a suppressed `Remove` changes nothing at all and broadcasts nothing. -/
+theorem remove_suppressed_changes_nothing (rc : RawCfg) (h : Hub) (now ch : Nat) (key : Key) (o : RmOpts)
+    (pos : Pos) (sup : Suppress) (cur : Option (Nat × Nat))
+    (hres : (removeOp rc h now ch key o).2.res = .update pos sup cur) (hs : sup ≠ .none) :
+    (removeOp rc h now ch key o).1 = h ∧ (removeOp rc h now ch key o).2.bcs = [] :=
+  remove_suppressed_aux rc h now ch key o pos sup cur hres hs
+
+example : (removeOp exRc exHub 5 1 [8] {}).2.res = .update ⟨1, 1⟩ .keyNotFound none ∧
+    (removeOp exRc exHub 5 1 [7] { cas := some ⟨1, 2⟩ }).2.res
+      = .update ⟨1, 1⟩ .positionMismatch (some (1, 5)) ∧
+    (removeOp exRc exHub 5 2 [7] { cas := some ⟨1, 1⟩ }).2.res = .update ⟨0, 0⟩ .positionMismatch none := by
+  decide
+
+/-- a `Publish` that returns an error changes nothing and broadcasts nothing. -/
+theorem publish_error_changes_nothing (rc : RawCfg) (h : Hub) (now ch : Nat) (key : Key) (o : PubOpts) (e : Err)
+    (hres : (publish rc h now ch key o).2.res = .err e) :
+    (publish rc h now ch key o).1 = h ∧ (publish rc h now ch key o).2.bcs = [] :=
+  publish_err_aux rc h now ch key o e hres
+
+example : (publish ⟨0, 0, 0, false⟩ exHub 5 1 [7] {}).2.res = .err .config ∧
+    (publish exRcE exHub 5 1 [7] { cas := some ⟨1, 1⟩ }).2.res = .err .casEphemeral ∧
+    (publish exRcE exHub 5 1 [7] { version := 1 }).2.res = .err .versionEphemeral := by decide
+
+/-- a `Remove` that returns an error changes nothing and broadcasts nothing. -/
+theorem remove_error_changes_nothing (rc : RawCfg) (h : Hub) (now ch : Nat) (key : Key) (o : RmOpts) (e : Err)
+    (hres : (removeOp rc h now ch key o).2.res = .err e) :
+    (removeOp rc h now ch key o).1 = h ∧ (removeOp rc h now ch key o).2.bcs = [] :=
+  remove_err_aux rc h now ch key o e hres
+
+example : (removeOp exRcE exHub 5 1 [7] { cas := some ⟨1, 1⟩ }).2.res = .err .casEphemeral := by decide
+
+/-! ### T4: unsuppressed operations -/
+
+/-- **T4** an unsuppressed `Publish` on a stream-backed channel appends exactly one stream entry — the
+publication with offset `top + 1` (then trims the front to the stream size) —, reports and broadcasts
+exactly that offset once, stores the publication under its key (the empty key has no state), and
+touches no other key and no other channel. -/
+theorem publish_unsuppressed_appends_one (rc : RawCfg) (cfg : Cfg) (h : Hub) (now ch : Nat) (key : Key)
+    (o : PubOpts) (pos : Pos) (cur : Option (Nat × Nat))
+    (hcfg : resolve rc = some cfg) (hst : cfg.hasStream = true)
+    (hres : (publish rc h now ch key o).2.res = .update pos .none cur) :
+    ∃ pub prev,
+      pub.offset = (chanFor cfg h ch).stream.top + 1 ∧ pub.key = key ∧ pub.removed = false ∧
+      pub.data = o.data ∧
+      pos = ⟨(chanFor cfg h ch).stream.top + 1, (chanFor cfg h ch).stream.epoch⟩ ∧
+      (publish rc h now ch key o).2.bcs = [⟨ch, pub, pos, o.delta, prev⟩] ∧
+      (chanView (publish rc h now ch key o).1 ch).1 = (chanFor cfg h ch).stream.top + 1 ∧
+      (chanView (publish rc h now ch key o).1 ch).2.1
+        = ((chanFor cfg h ch).stream.items ++ [pub]).drop
+            (((chanFor cfg h ch).stream.items ++ [pub]).length - cfg.streamSize) ∧
+      (key ≠ [] → ∃ e, aget (chanView (publish rc h now ch key o).1 ch).2.2 key = some e ∧ e.pub = pub) ∧
+      (∀ k, k ≠ key → aget (chanView (publish rc h now ch key o).1 ch).2.2 k = aget (chanView h ch).2.2 k) ∧
+      ∀ ch', ch' ≠ ch → chanView (publish rc h now ch key o).1 ch' = chanView h ch' :=
+  publish_unsuppressed_stream_aux rc cfg h now ch key o pos cur hcfg hst hres
+
+example : exCfg.hasStream = true ∧
+    (publish exRc exHub 5 1 [8] { data := 6 }).2.res = .update ⟨2, 1⟩ .none none ∧
+    (publish exRc exHub 5 1 [8] { data := 6 }).2.bcs = [⟨1, ⟨[8], 6, 0, 0, 2, false, 5⟩, ⟨2, 1⟩, false, none⟩] := by
+  decide
+
+/-- **T4** an unsuppressed `Remove` on a stream-backed channel appends exactly one removal entry with
+offset `top + 1`, broadcasts it once with that offset, deletes the key and nothing else. -/
+theorem remove_unsuppressed_appends_one (rc : RawCfg) (cfg : Cfg) (h : Hub) (now ch : Nat) (key : Key)
+    (o : RmOpts) (pos : Pos) (cur : Option (Nat × Nat))
+    (hcfg : resolve rc = some cfg) (hst : cfg.hasStream = true)
+    (hres : (removeOp rc h now ch key o).2.res = .update pos .none cur) :
+    ∃ c pub,
+      aget h.chans ch = some c ∧ (aget c.state key).isSome ∧
+      pub.offset = c.stream.top + 1 ∧ pub.key = key ∧ pub.removed = true ∧
+      pos = ⟨c.stream.top + 1, c.stream.epoch⟩ ∧
+      (removeOp rc h now ch key o).2.bcs = [⟨ch, pub, pos, false, none⟩] ∧
+      (chanView (removeOp rc h now ch key o).1 ch).1 = c.stream.top + 1 ∧
+      (chanView (removeOp rc h now ch key o).1 ch).2.1
+        = (c.stream.items ++ [pub]).drop ((c.stream.items ++ [pub]).length - cfg.streamSize) ∧
+      aget (chanView (removeOp rc h now ch key o).1 ch).2.2 key = none ∧
+      (∀ k, k ≠ key → aget (chanView (removeOp rc h now ch key o).1 ch).2.2 k = aget c.state k) ∧
+      ∀ ch', ch' ≠ ch → chanView (removeOp rc h now ch key o).1 ch' = chanView h ch' :=
+  remove_unsuppressed_stream_aux rc cfg h now ch key o pos cur hcfg hst hres
+
+example : (removeOp exRc exHub 5 1 [7] {}).2.res = .update ⟨2, 1⟩ .none none ∧
+    (removeOp exRc exHub 5 1 [7] {}).2.bcs = [⟨1, ⟨[7], 0, 0, 0, 2, true, 5⟩, ⟨2, 1⟩, false, none⟩] := by
+  decide
+
+/-- **T4** (streamless) an unsuppressed `Publish` on an ephemeral channel leaves the stream alone,
+reports the unchanged position and is broadcast exactly once. -/
+theorem publish_unsuppressed_streamless (rc : RawCfg) (cfg : Cfg) (h : Hub) (now ch : Nat) (key : Key)
+    (o : PubOpts) (pos : Pos) (cur : Option (Nat × Nat))
+    (hcfg : resolve rc = some cfg) (hst : cfg.hasStream = false)
+    (hres : (publish rc h now ch key o).2.res = .update pos .none cur) :
+    ∃ pub prev,
+      pub.key = key ∧ pub.removed = false ∧ pub.data = o.data ∧
+      pos = (chanFor cfg h ch).stream.pos ∧
+      (publish rc h now ch key o).2.bcs = [⟨ch, pub, pos, o.delta, prev⟩] ∧
+      (chanView (publish rc h now ch key o).1 ch).1 = (chanView h ch).1 ∧
+      (chanView (publish rc h now ch key o).1 ch).2.1 = (chanView h ch).2.1 ∧
+      (key ≠ [] → ∃ e, aget (chanView (publish rc h now ch key o).1 ch).2.2 key = some e ∧ e.pub = pub) ∧
+      (∀ k, k ≠ key → aget (chanView (publish rc h now ch key o).1 ch).2.2 k = aget (chanView h ch).2.2 k) ∧
+      ∀ ch', ch' ≠ ch → chanView (publish rc h now ch key o).1 ch' = chanView h ch' :=
+  publish_unsuppressed_plain_aux rc cfg h now ch key o pos cur hcfg hst hres
+
+example : exCfgE.hasStream = false ∧
+    (publish exRcE Hub.init 5 3 [8] { data := 6 }).2.res = .update ⟨0, 1⟩ .none none ∧
+    (publish exRcE Hub.init 5 3 [8] { data := 6 }).2.bcs
+      = [⟨3, ⟨[8], 6, 0, 0, 0, false, 5⟩, ⟨0, 1⟩, false, none⟩] := by decide
+
+/-! ### T6: invariants of every reachable hub -/
+
+/-- **T6** the empty hub satisfies the invariant. -/
+theorem hubInv_init : HubInv Hub.init := hubInv_init'
+
+/-- **T6** every operation — publish, remove, clear, read-state, read-stream and a whole key-expiry
+sweep — preserves the hub invariant (`HubInv`: unique channels with unique positive epochs below
+`nextEpoch`; per channel unique state keys, strictly increasing stream offsets within `1..top`, every
+state entry a live publication of its own key with an offset `≤ top`). -/
+theorem step_preserves_hubInv (cfg : Nat → RawCfg) (h : Hub) (now : Nat) (op : MOp) (hi : HubInv h) :
+    HubInv (step cfg h now op).1 :=
+  step_inv cfg h now op hi
+
+/-- a non-trivial hub satisfying the hypothesis: the fixture hub (one channel, one entry). -/
+example : HubInv exHub := publish_inv _ _ _ _ _ _ hubInv_init
+example : exHub.chans ≠ [] ∧ exHub.nextEpoch = 2 := by decide
+
+/-- **T6** the invariant holds after every timed op sequence from the empty hub. -/
+theorem run_preserves_hubInv (cfg : Nat → RawCfg) (ops : List (Nat × MOp)) :
+    HubInv (run cfg Hub.init ops).1 :=
+  run_inv cfg ops Hub.init hubInv_init'
+
+/-- what the invariant says about a channel of a reachable hub, spelled out. -/
+theorem reachable_channel_invariants (cfg : Nat → RawCfg) (ops : List (Nat × MOp)) (ch : Nat) (c : Chan)
+    (hq : aget (run cfg Hub.init ops).1.chans ch = some c) :
+    (akeys c.state).Nodup ∧
+    c.stream.items.Pairwise (fun a b => a.offset < b.offset) ∧
+    (∀ p ∈ c.stream.items, 1 ≤ p.offset ∧ p.offset ≤ c.stream.top) ∧
+    (∀ k e, aget c.state k = some e → e.pub.offset ≤ c.stream.top ∧ e.pub.key = k ∧ e.pub.removed = false) ∧
+    1 ≤ c.stream.epoch ∧ c.stream.epoch < (run cfg Hub.init ops).1.nextEpoch :=
+  let h := (run_preserves_hubInv cfg ops).2.1 ch c hq
+  ⟨h.1.1, h.1.2.1, h.1.2.2.1, h.1.2.2.2, h.2.1, h.2.2⟩
+
+example : aget (run (fun _ => exRc) Hub.init [(0, .publish 1 [7] { data := 5, version := 3 })]).1.chans 1
+    = some exChan := by decide
+
+/-- channels of a reachable hub have pairwise different epochs. -/
+theorem reachable_epochs_unique (cfg : Nat → RawCfg) (ops : List (Nat × MOp)) (ch1 ch2 : Nat) (c1 c2 : Chan)
+    (h1 : aget (run cfg Hub.init ops).1.chans ch1 = some c1)
+    (h2 : aget (run cfg Hub.init ops).1.chans ch2 = some c2)
+    (he : c1.stream.epoch = c2.stream.epoch) : ch1 = ch2 :=
+  (run_preserves_hubInv cfg ops).2.2.1 ch1 ch2 c1 c2 h1 h2 he
+
+example :
+    let h := (run (fun _ => exRc) Hub.init [(0, .publish 1 [7] {}), (1, .readStream 2 {})]).1
+    (aget h.chans 1).map (·.stream.epoch) = some 1 ∧ (aget h.chans 2).map (·.stream.epoch) = some 2 := by
+  decide
 
 end CentrifugeVerif.MapHub
